@@ -1,4 +1,201 @@
-/- Driver.C14 — stream `C14` (stub: replaced when the property's model is built). -/
+/-
+  Driver.C14 — stream `C14`.
+
+  payload := (DOC WRAPPER (RECV*) (STEP*))
+  DOC     := ((name parent ((k v)*) text)*)      -- pre-order; parent = none | index
+  WRAPPER := 0 | 1                                -- element 0 is the invisible wrapper of a multi-root document
+  RECV    := (doc) | (el i) | (coll i*)
+  STEP    := (dbl axis name (PRED*))              -- dbl = 0|1, axis = none|child|desc|dos|parent|anc|aos
+  PRED    := (num "lit) | (str "s) | (attr "n) | (text) | (last) | (pos) | (concat PRED*) | (contains PRED PRED)
+           | (nspace) | (nspace PRED) | (group PRED) | (bin OP PRED PRED)
+  OP      := cat add sub mul div mod | eq ne lt le gt ge | and or
+
+  Output: one result per receiver — `err` or `(id*)` — computed by the *model* (flatten → compile with
+  constant folding → step driver with the pass-based predicate evaluator), then `ok` when the
+  specification evaluator (`specEval`, recursive over the syntax tree) gives the same on every
+  receiver, `specdiff` otherwise.  Numbers: `Float`.
+-/
+import AHP.Model.Basic
+import AHP.Model.XPath
+import AHP.Model.XPathSpec
 namespace Driver.C14
-def run (_payload : String) : String := "unimplemented"
+open AHP AHP.Sexp AHP.XPath
+
+/-! ### `Float` as the numeric structure -/
+
+def isDigit (c : Char) : Bool := '0' ≤ c && c ≤ '9'
+
+def natOfDigits (ds : List Char) : Nat := ds.foldl (fun n c => n * 10 + (c.toNat - 48)) 0
+
+/-- Python `float(str)` on the plain decimal forms (`[ws][+-]digits[.digits][e[+-]digits][ws]`, `.5`, `5.`);
+    everything else (inf, nan, underscores, empty) is a ValueError here. -/
+def parseFloat (s : Str) : Option Float :=
+  let t := strip s
+  let (neg, t) := match t with
+    | '-' :: r => (true, r)
+    | '+' :: r => (false, r)
+    | r => (false, r)
+  let ip := t.takeWhile isDigit
+  let t1 := t.dropWhile isDigit
+  let (fp, t2, hadDot) := match t1 with
+    | '.' :: r => (r.takeWhile isDigit, r.dropWhile isDigit, true)
+    | r => ([], r, false)
+  if ip.isEmpty && fp.isEmpty then none
+  else
+    let expo : Option Int := match t2 with
+      | [] => some 0
+      | c :: r =>
+        if c = 'e' || c = 'E' then
+          let (eneg, r) := match r with
+            | '-' :: r' => (true, r')
+            | '+' :: r' => (false, r')
+            | r' => (false, r')
+          if r.isEmpty || !r.all isDigit then none
+          else some (if eneg then -(Int.ofNat (natOfDigits r)) else Int.ofNat (natOfDigits r))
+        else none
+    match expo with
+    | none => none
+    | some e =>
+      let _ := hadDot
+      let m := natOfDigits (ip ++ fp)
+      let e10 : Int := e - Int.ofNat fp.length
+      let v : Float :=
+        if e10 ≥ 0 then
+          if e10 ≤ 22 then m.toFloat * (10 ^ e10.toNat : Nat).toFloat else Float.ofScientific m false e10.toNat
+        else
+          if (-e10) ≤ 22 && m < 9007199254740992 then m.toFloat / (10 ^ (-e10).toNat : Nat).toFloat
+          else Float.ofScientific m true (-e10).toNat
+      some (if neg then -v else v)
+
+def isIntegral (x : Float) : Bool := x.isFinite && x.floor == x
+
+def floatToInt (x : Float) : Int :=
+  if x < 0 then -(Int.ofNat (-x).toUInt64.toNat) else Int.ofNat x.toUInt64.toNat
+
+def small (x : Float) : Bool := x.abs < 9007199254740992.0
+
+/-- Python `x % y` for floats (sign of the divisor). -/
+def pyMod (x y : Float) : Float :=
+  if isIntegral x && isIntegral y && small x && small y then
+    Float.ofInt (Int.fmod (floatToInt x) (floatToInt y))
+  else
+    let r := x - y * (x / y).floor
+    r
+
+def floatNum : Num Float where
+  parse := parseFloat
+  ofNat := Float.ofNat
+  add := (· + ·)
+  sub := (· - ·)
+  mul := (· * ·)
+  div := fun x y => if y == 0 then none else some (x / y)
+  mod := fun x y => if y == 0 then none else some (pyMod x y)
+  eq := fun x y => x == y
+  lt := fun x y => x < y
+  le := fun x y => x ≤ y
+  toIndex := fun x =>
+    if !x.isFinite then none
+    else if isIntegral x then (if x.abs < 1e18 then some (some (floatToInt x)) else some (some 0))
+    else some none
+  toStr := fun x =>
+    if isIntegral x && x.abs < 1e15 then
+      let k := floatToInt x
+      some ((toString k).toList ++ ".0".toList)
+    else none
+
+/-! ### Decoding -/
+
+def toOp : String → Option Op
+  | "cat" => some (.arith .concat) | "add" => some (.arith .add) | "sub" => some (.arith .sub)
+  | "mul" => some (.arith .mul) | "div" => some (.arith .div) | "mod" => some (.arith .mod)
+  | "eq" => some (.cmp .eq) | "ne" => some (.cmp .ne) | "lt" => some (.cmp .lt)
+  | "le" => some (.cmp .le) | "gt" => some (.cmp .gt) | "ge" => some (.cmp .ge)
+  | "and" => some (.bool .and) | "or" => some (.bool .or)
+  | _ => none
+
+partial def toP : Sexp → Option (P Float)
+  | .list [.atom "num", s] => do
+    let t ← toStr? s
+    let x ← parseFloat t
+    pure (.lit (.num x))
+  | .list [.atom "str", s] => (toStr? s).map (fun t => .lit (.str t))
+  | .list [.atom "attr", s] => (toStr? s).map .attr
+  | .list [.atom "text"] => some .text
+  | .list [.atom "last"] => some .last
+  | .list [.atom "pos"] => some .position
+  | .list (.atom "concat" :: args) => (args.mapM toP).map .concat
+  | .list [.atom "contains", a, b] => do pure (.contains (← toP a) (← toP b))
+  | .list [.atom "nspace"] => some .nspace0
+  | .list [.atom "nspace", a] => (toP a).map .nspace1
+  | .list [.atom "group", a] => (toP a).map .group
+  | .list [.atom "bin", .atom o, a, b] => do pure (.bin (← toOp o) (← toP a) (← toP b))
+  | _ => none
+
+def toAxis : Sexp → Option (Option Axis)
+  | .atom "none" => some none
+  | .atom "child" => some (some .child)
+  | .atom "desc" => some (some .descendant)
+  | .atom "dos" => some (some .descendantOrSelf)
+  | .atom "parent" => some (some .parent)
+  | .atom "anc" => some (some .ancestor)
+  | .atom "aos" => some (some .ancestorOrSelf)
+  | _ => none
+
+def toStep : Sexp → Option (SStep Float)
+  | .list [dbl, ax, name, .list preds] => do
+    let d ← toNat? dbl
+    let a ← toAxis ax
+    let n ← toStr? name
+    let ps ← preds.mapM toP
+    pure { dbl := d != 0, axis := a, name := lower n, preds := ps }
+  | _ => none
+
+def toElem : Sexp → Option Elem
+  | .list [name, par, .list attrs, text] => do
+    let n ← toStr? name
+    let p ← match par with
+      | .atom "none" => some none
+      | x => (toNat? x).map some
+    let as ← attrs.mapM (fun a => match a with
+      | .list [k, v] => do pure (← toStr? k, ← toStr? v)
+      | _ => none)
+    let t ← toStr? text
+    pure { name := n, parent := p, attrs := as, text := t }
+  | _ => none
+
+inductive Recv | doc | el (i : Nat) | coll (is : List Nat)
+
+def toRecv : Sexp → Option Recv
+  | .list [.atom "doc"] => some .doc
+  | .list [.atom "el", i] => (toNat? i).map .el
+  | .list (.atom "coll" :: is) => (is.mapM toNat?).map .coll
+  | _ => none
+
+def start (d : Doc) (wrapper : Bool) : Recv → List Nat
+  | .doc => d.rootNodes wrapper
+  | .el i => [i]
+  | .coll is => is
+
+def resSx : Option (List Nat) → Sexp
+  | none => sym "err"
+  | some ids => .list (ids.map natAtom)
+
+def run (payload : String) : String :=
+  match Sexp.parse payload with
+  | some (.list [.list elems, wr, .list recvs, .list steps]) =>
+    match elems.mapM toElem, toNat? wr, recvs.mapM toRecv, steps.mapM toStep with
+    | some d, some w, some rs, some ss =>
+      let wrapper := w != 0
+      let compiled := compileSteps floatNum (flattenSteps ss)
+      let model := rs.map (fun r => match compiled with
+        | none => none
+        | some cs => evaluate floatNum d cs (start d wrapper r))
+      let spec := rs.map (fun r => specEval floatNum d ss (start d wrapper r))
+      let same := (model.zip spec).all (fun (a, b) => a == b)
+      -- the hypotheses of the C14 theorems, checked on every case: pre-order table, three-level grammar, no Null literal
+      let hyp := Doc.isPreOrder d && ss.all (fun s => s.preds.all (fun p => P.wf 3 p && P.noNull p))
+      (Sexp.list (model.map resSx ++ [sym (if !hyp then "hypothesis-fails" else if same then "ok" else "specdiff")])).render
+    | _, _, _, _ => "bad-case"
+  | _ => "bad-case"
+
 end Driver.C14
